@@ -7,11 +7,11 @@ from pyvc import spec as SP
 from pyvc.sym import Sym
 
 META = {
-    "explanation": "under the unit abstraction 5.1 (generic units of symbolic scale = 'any compatible unit'): each relation called with quantities returns the same physical (SI) value and the dimension of the quantity it names as the plain call in documented units; range warnings are emitted iff a temperature/pressure lies outside the documented range; Henry inverses; literature coefficients and anchor values as data obligations",
+    "explanation": "under the unit abstraction 5.1 (generic units of symbolic scale = 'any compatible unit'): each relation called with quantities returns the same physical (SI) value and the dimension of the quantity it names as the plain call in documented units; range warnings are emitted iff a temperature/pressure lies outside the documented range; Henry inverses; literature coefficients and anchor values as data obligations; the salting-out sum for any concentrations in any units; density_from_concentration returns a fixed point of the forward correlation within atol for ANY forward correlation (loop invariant, uninterpreted callback)",
     "trusted_base": ["assumed contract 5.1 (pyvc/qmodel.py) for the `quantities` package, validated against the real package in C09", "assumed contract 5.3 (exp/log as real functions)",
                      "published coefficients/anchors typed into this file from Tanaka 2001, Korson 1969, Holz 2000, Bradley-Pitzer 1979"],
     "not_decided": ["fidelity of the correlations to nature beyond the published anchors", "temperatures in scaled units (outside the property's quantifier; the code supports kelvin only)",
-                    "sulfuric_acid_density / density_from_concentration / lg_solubility_ratio numpy-array internals (bounded stand-in)"],
+                    "sulfuric_acid_density itself (float() of the temperature and numpy arrays inside: bounded stand-in); density_from_concentration is proved for an arbitrary forward correlation without units only (with units: stand-in)"],
     "assumptions": ["temperatures are quantified in kelvin (the documented unit)"],
 }
 Fr = fractions.Fraction
@@ -306,3 +306,108 @@ def _(v):
         # float: (T0 + t) - T0 may differ from t in the last bit exactly at the edges
         if abs(t) > 1e-9 and abs(t - 40) > 1e-9:
             v.prove("warned_iff_outside_0_to_40_above_T0", _warned(v) == (bool(warn) and (t < 0 or t > 40)))
+
+
+# ---------------------------------------------------------------------------- salting-out of gases (Schumpe 1993)
+@harness("C19", "lg_solubility_ratio", functions=["chempy.properties.gas_sol_electrolytes_schumpe_1993:lg_solubility_ratio"], div_mode="assume", samples=25)
+def _(v):
+    """'salting-out of gases': lg(c0/c) = sum_i (h_gas + h_ion_i) c_i for every set of concentrations; with units each concentration may be in
+    its own compatible unit and the result is the same pure number; the fluoride warning is emitted iff fluoride is among the electrolytes
+    (and warnings are asked for); the published parameters are pinned in the data harness"""
+    from chempy.properties import gas_sol_electrolytes_schumpe_1993 as S
+    fn = S.lg_solubility_ratio
+    ions = v.choice("ions", [("Na+", "Cl-"), ("K+", "SO4-2", "H+"), ("Mg+2", "F-"), ("Na+",)])
+    gas = v.choice("gas", ["O2", "CO2", "H2", "N2O"])
+    cs = [v.real("c%d" % i, lo=0, hi=5) for i in range(len(ions))]
+    plain = v.call(fn, dict(zip(ions, cs)), gas)
+    want = sum((F(S.p_gas_rM[gas]) + F(S.p_ion_rM[k])) * c for k, c in zip(ions, cs))
+    # the two table parameters are added in floating point before they meet the concentration: equal up to that rounding (1e-15 relative)
+    v.prove("formula", abs(plain - want) <= F(1e-14) * sum(cs)) if v.symbolic else v.prove("formula", v.eq(plain, float(want), rel=1e-12, abs_=1e-15))
+    n_warn = len([e for e in v.events("warning")])
+    v.prove("fluoride_warning_iff_fluoride", (n_warn >= 1) == ("F-" in ions))
+    before = len(v.events("warning"))
+    v.call(fn, dict(zip(ions, cs)), gas, None, False)
+    v.prove("no_warning_when_not_asked_for", len(v.events("warning")) == before)
+    if v.symbolic:
+        u, table = units_env(v)
+        cus = [table.generic("cu%d" % i, (-3, 0, 0, 0, 0, 0, 1)) for i in range(len(ions))]
+        withu = v.call(fn, {k: (c * 1000 / table.scale["cu%d" % i]) * cus[i] for i, (k, c) in enumerate(zip(ions, cs))}, gas, u, False)   # c mol/dm3 in any unit
+        v.prove("pure_number", dimv(withu) == (0, 0, 0, 0, 0, 0, 0))
+        v.prove("same_value_any_concentration_units", abs(si(v, withu) - want) <= F(1e-14) * sum(cs))
+    else:
+        from chempy.units import default_units as u
+        unit_cycle = [u.molar, u.mol / u.m3, u.mmol / u.cm3]
+        fac = [1, 1000, 1]
+        withu = v.call(fn, {k: (c * fac[i % 3]) * unit_cycle[i % 3] for i, (k, c) in enumerate(zip(ions, cs))}, gas, u, False)
+        v.prove("same_value_any_concentration_units", v.eq(si(v, withu, u.dimensionless), float(want), rel=1e-9, abs_=1e-12))
+
+
+# ---------------------------------------------------------------------------- density from concentration (inverse helper), any forward correlation
+@harness("C19", "density_from_concentration", functions=["chempy.properties.sulfuric_acid_density_myhre_1998:density_from_concentration"], div_mode="assume", samples=0)
+def _(v):
+    """'the inverse helpers (… density from concentration) invert the forward ones', for ANY forward correlation rho_cb (an uninterpreted function)
+    and any number of iterations (loop invariant): whenever a density is returned, it is the forward correlation evaluated at the mass fraction
+    conc*M/rho' of a density rho' that differs from it by at most atol -- a fixed point of rho = rho_cb(conc*M/rho) within the tolerance; the
+    callback is asked about the caller's temperature, never about another one; what cannot be brought to that is refused with NoConvergence"""
+    import z3
+    from pyvc.sym import Sym, to_z3, wrap
+    from chempy.properties.sulfuric_acid_density_myhre_1998 import density_from_concentration as g
+    from chempy.util import NoConvergence
+    conc, T, M, atol = v.real("conc", lo=0), v.real("T", lo=200), v.real("M", lo=1e-3), v.real("atol", lo=1e-9)
+    maxiter = v.int("maxiter", lo=1, hi=1000)
+    f = z3.Function("rho_forward", z3.RealSort(), z3.RealSort(), z3.RealSort())
+    asked, witness = [], []
+
+    def rho_cb(w, T_, units=None, warn=True):
+        asked.append((T_, units, warn))
+        return Sym(f(to_z3(w), to_z3(T_)))
+
+    def inv(env, i, seq):
+        it, rho, d = env["iter_idx"], env["rho"], env["delta_rho"]
+        if isinstance(d, float):                 # the state before the first iteration: delta_rho = inf exceeds every tolerance
+            return d == float("inf") and it == 0
+        witness[:] = [d]                         # ghost: the last step of the iteration, used as the witness of the existential below
+        later = (it >= 1) & (it <= maxiter + 1) & (rho - d != 0) & wrap(to_z3(rho) == f(to_z3(conc * M / (rho - d)), to_z3(T)))
+        return ((it == 0) & (atol < abs(d))) | later
+    v.invariant(g, 0, inv)
+    out = v.run(g, conc, T, M, rho_cb, None, atol, maxiter)
+    if out.returned:
+        r = out.value
+        step = witness[0]                        # rho' = r - step
+        v.prove("returned_density_is_a_fixed_point_within_atol", (abs(step) <= atol) & (r - step != 0) & wrap(to_z3(r) == f(to_z3(conc * M / (r - step)), to_z3(T))))
+    else:
+        v.prove("only_refusal_is_NoConvergence", out.raised(NoConvergence))
+    v.prove("callback_asked_about_the_callers_temperature_without_units", all(t_ is T and un is None and wa is False for t_, un, wa in asked))
+
+
+@harness("C19", "nernst_potential.arrays_and_symbols", functions=["chempy.electrochemistry.nernst:nernst_potential"], kind="data")
+def _(v):
+    """the Nernst relation for the input types it documents besides plain numbers: numpy arrays of concentrations with backend=numpy (element-wise,
+    same values as the scalar calls), quantity arrays, and sympy symbols with backend=sympy (a symbolic answer that evaluates to the number)"""
+    import math
+    import numpy as np
+    import sympy
+    from chempy.electrochemistry.nernst import nernst_potential as fn
+    from chempy.units import default_units as u, to_unitless
+    co, ci = np.array([145.0, 4.0, 12.0]), np.array([15.0, 140.0, 12.0])
+    want = [8.3144598 * 310 / (1 * 96485.33289) * math.log(a / b) for a, b in zip(co, ci)]
+    try:
+        got = fn(co, ci, 1, 310.0, backend=np)
+        ok, det = np.allclose(got, want, rtol=1e-12, atol=1e-18), repr(got)
+    except Exception as ex:
+        ok, det = False, repr(ex)[:200]
+    v.prove("numpy_arrays_element_wise", ok, detail=det)
+    try:
+        gq = fn(co * u.mM, ci * 1e-3 * u.M, 1, 310.0 * u.K, None, u, backend=np)
+        ok, det = np.allclose(np.asarray(to_unitless(gq, u.volt), dtype=float), want, rtol=1e-9, atol=1e-15), repr(gq)
+    except Exception as ex:
+        ok, det = False, repr(ex)[:200]
+    v.prove("quantity_arrays_element_wise", ok, detail=det)
+    try:
+        a, b, T = sympy.symbols("c_out c_in T")
+        ex_ = fn(a, b, 2, T, backend=sympy)
+        val = float(ex_.subs({a: 145, b: 15, T: 310}))
+        ok, det = abs(val - 8.3144598 * 310 / (2 * 96485.33289) * math.log(145 / 15)) < 1e-12, str(ex_)
+    except Exception as ex:
+        ok, det = False, repr(ex)[:200]
+    v.prove("sympy_symbols_give_a_symbolic_answer", ok, detail=det)
